@@ -30,6 +30,10 @@ def run_table(tier, seed):
                 sc = G.scalings_of(spec, (0, 1, 3, 4))[k % 4]
                 k += 1
                 out.append({"t": "run", "spec": spec, "cfg": c, "sc": sc})
+    for spec in G.small_jacobian_specs():
+        for rho in (1e-8, 1.0, 1e4, 1e8):
+            for ctl in ("DistanceRatio", "Exact"):
+                out.append({"t": "run", "spec": spec, "cfg": {"control": ctl, "iteration_limit": 150, "params": {"rho": rho}}, "sc": None})
     return out
 
 
